@@ -299,3 +299,16 @@ End TreeProofs.
 Lemma tree_roundtrip : forall (V : Type) (t : list ((list nat * list nat) * V)),
   exists t', load_tree V (save_tree V t) = Some t' /\ Permutation t' t.
 Proof. exact tree_roundtrip_V. Qed.
+
+(* distinct index-set elements / index sets never save to the same text (consequence of the round trips) *)
+Lemma show_pair_inj : forall ab cd : list nat * list nat, show_pair ab = show_pair cd -> ab = cd.
+Proof.
+  intros ab cd H. pose proof (pair_roundtrip ab) as Ha. rewrite H, pair_roundtrip in Ha.
+  injection Ha as Ha. symmetry. exact Ha.
+Qed.
+
+Lemma save_index_set_inj : forall s s', save_index_set s = save_index_set s' -> s = s'.
+Proof.
+  intros s s' H. pose proof (index_set_roundtrip s) as Ha. rewrite H, index_set_roundtrip in Ha.
+  injection Ha as Ha. symmetry. exact Ha.
+Qed.
